@@ -47,6 +47,7 @@ type Config struct {
 	AllowGo      []string          // function-name substrings whose `go` statements are skipped
 	ExpectPanics []string          // regexps; matching target panics are not violations
 	MapOrders    bool              // explore all iteration orders of maps with <= 3 entries
+	ConcretizeDivisors bool        // fork on the feasible values of symbolic divisors
 	Params       map[string]int
 	Lim          Limits
 	Trace        bool
